@@ -163,14 +163,18 @@ def run_params(case):
                             r['accepted'] = True
                     except Exception as e:  # noqa
                         r['raised'] = e
+                    if op.get('notify') and version >= 4 and op['op'] in ('set', 'read') and 'raised' not in r and not op.get('unknown'):
+                        # the firmware announces a change of this very parameter while the request is on its way
+                        link.deliver(dev.value_updated_packet(idx, _valid_value(p['type'], op['notify'])), delay=0.0005)
+                        notif.append((s.now, idx, op['notify']))
                     if op.get('gap'):
                         s.sleep(op['gap'])
             finally:
                 done[t] = True
+        notif = []
         for t, script in enumerate(case['threads']):
             s.spawn(lambda t=t, script=script: runner(t, script), 'user%d' % t)
         # unsolicited notifications at drawn instants
-        notif = []
         try:
             tprev = 0.0
             for nt in sorted(case['notifications'], key=lambda x: x['at']):
@@ -463,6 +467,8 @@ def _op(draw):
     kind = draw(st.sampled_from(['set', 'set', 'set', 'read', 'get', 'default', 'store', 'clear', 'state', 'state']))
     op = {'op': kind, 'p': draw(st.integers(0, 15)), 'gap': draw(st.sampled_from([0, 0, 0, 0.0005, 0.02, 0.3])),
           'same': draw(st.sampled_from([False, False, True]))}
+    if kind in ('set', 'read') and draw(st.sampled_from([False, False, False, True])):
+        op['notify'] = draw(st.integers(1, 1000))
     if kind == 'set':
         if draw(st.booleans()):
             op['vclass'] = draw(st.sampled_from(['min', 'max', 'below', 'above', 'zero', 'neg1', 'near-max', 'odd-high', 'random', 'random', 'far-above',
